@@ -228,6 +228,8 @@ def run(ctx):
         invariants=["Consecutive", "Complete", "TilingThm", "CoveredThm"], deadlock=False),
         coverage=True)
     ctx.require_actions(res, ["LoadBand"], "MC_Bands")
+    # unbounded: TLAPS proves First / Last / Adjacent / Ordered of the band design for every height and band count
+    ctx.cov["tlaps_obligations_proved"] = common.run_tlapm("TilesProof", os.path.join(ctx.workdir, "tlaps"))
     selftest(ctx)
 
     rng = random.Random(ctx.seed)
